@@ -415,8 +415,11 @@ class Extractor {
         o["friends"] = std::move(friends);
         if (!R->isDependentContext() && !R->isLambda()) {
             json::Object sm;
-            sm["copy_ctor_deleted"] = R->defaultedCopyConstructorIsDeleted();
-            sm["move_ctor_deleted"] = R->defaultedMoveConstructorIsDeleted();
+            // both queries assert when overload resolution is still needed
+            if (!R->needsOverloadResolutionForCopyConstructor())
+                sm["copy_ctor_deleted"] = R->defaultedCopyConstructorIsDeleted();
+            if (!R->needsOverloadResolutionForMoveConstructor())
+                sm["move_ctor_deleted"] = R->defaultedMoveConstructorIsDeleted();
             sm["has_user_copy_ctor"] = R->hasUserDeclaredCopyConstructor();
             sm["has_user_move_ctor"] = R->hasUserDeclaredMoveConstructor();
             sm["has_user_copy_assign"] = R->hasUserDeclaredCopyAssignment();
